@@ -48,7 +48,7 @@ def Wire.ofProto : Proto → Wire
     `.encode(errors=…)` of text the protocol generates (identity on the model's byte/str lists). -/
 def respond (w : Wire) (admin : Str) (head : Bool) (o : HOutcome) : Bytes :=
   match w, o with
-  | .gopher, .notFound m | .gopher, .ioError m => [51] ++ m ++ lit "\t\terror.host\t1\r\n"
+  | .gopher, .notFound m | .gopher, .ioError m => [51] ++ menuField m ++ lit "\t\terror.host\t1\r\n"
   | .gopher, .listing s r f => s ++ r ++ f
   | .gopher, .document _ _ _ b => b
   | .gopher, .info b => b
